@@ -376,3 +376,14 @@ func IsCellNamed(addr *Sym, name string) bool {
 	}
 	return false
 }
+
+// AllocName returns the source name of the local variable an alloc cell holds.
+func AllocName(s *Sym) string {
+	if s == nil || s.Kind != KAlloc {
+		return ""
+	}
+	if a, ok := s.V.(*ssa.Alloc); ok {
+		return a.Comment
+	}
+	return ""
+}
